@@ -1,4 +1,379 @@
 package main
 
-// runThorough adds the thorough-tier work; filled in later (variants, corpus replay).
-func runThorough(pd *propDef, c *Ctx, repo, vdir string, extra map[string]interface{}) {}
+import (
+	"bufio"
+	"encoding/json"
+	"fmt"
+	"io"
+	"io/fs"
+	"os"
+	"os/exec"
+	"path/filepath"
+	"sort"
+	"strings"
+	"sync"
+
+	"golang.org/x/tools/go/ssa"
+)
+
+// Thorough tier: the quick obligations (with the larger grid where a rule enumerates one)
+// plus
+//   (1) build-variant agreement: the same property is decided again on the tree loaded for
+//       GOARCH=386 and with -tags verif; any difference in the set of obligation verdicts is
+//       an undecided obligation. Build-constrained and generated files are listed.
+//   (2) call-resolution cross-check: for every interface call site in the module, the VTA
+//       call graph's module-local callees must be contained in the callees the rules use
+//       (class-hierarchy resolution restricted to module types): the rules never miss a
+//       possible callee.
+//   (3) corpus replay: every stored breaking change labelled with this property, and every
+//       stored behaviour-preserving refactoring, is applied to a scratch copy of the current
+//       tree (os.MkdirTemp, removed immediately) and the quick check is run on it in a
+//       subprocess. Sensitivity and specificity are reported in the evidence; they do not
+//       change the verdict on /repo itself.
+
+type corpusEntry struct {
+	Name     string `json:"name"`
+	Property string `json:"property"`
+	Patch    string `json:"patch,omitempty"`
+	Edits    []struct {
+		File string `json:"file"`
+		Old  string `json:"old"`
+		New  string `json:"new"`
+	} `json:"edits,omitempty"`
+}
+
+func runThorough(pd *propDef, c *Ctx, repo, vdir string, extra map[string]interface{}) {
+	// (1) variants
+	variants := []loadOpts{{dir: repo, goarh: "386"}, {dir: repo, tags: "verif"}}
+	base := verdictSet(c)
+	var vres []string
+	for _, vo := range variants {
+		name := "GOARCH=" + vo.goarh
+		if vo.tags != "" {
+			name = "-tags " + vo.tags
+		}
+		vp, err := loadProg(vo)
+		if err != nil {
+			c.undecided("variants", "load:"+name, "-", "cannot load the tree for this build variant: "+err.Error())
+			continue
+		}
+		vc := newCtx(vp, pd.ID, "quick")
+		func() {
+			defer func() {
+				if r := recover(); r != nil {
+					vc.undecided("meta", "internal-error", "-", fmt.Sprint(r))
+				}
+			}()
+			pd.Run(vc)
+		}()
+		other := verdictSet(vc)
+		var diff []string
+		for k, v := range base {
+			if other[k] != v {
+				diff = append(diff, fmt.Sprintf("%s: %s here, %q under %s", k, v, other[k], name))
+			}
+		}
+		for k, v := range other {
+			if _, ok := base[k]; !ok {
+				diff = append(diff, fmt.Sprintf("%s: only under %s (%s)", k, name, v))
+			}
+		}
+		sort.Strings(diff)
+		c.check(len(diff) == 0, "variants", "agreement:"+name, "-", fmt.Sprintf("%d obligations decided identically under %s (%d packages)", len(other), name, len(vp.Pkgs)), "the property is decided differently for another build variant", uniq(diff, 5)...)
+		vres = append(vres, fmt.Sprintf("%s: %d packages, %d functions, %d obligations", name, len(vp.Pkgs), len(vp.Funcs), len(other)))
+	}
+	extra["build_variants"] = vres
+	constrained := constrainedFiles(repo)
+	extra["build_constrained_or_generated_files"] = constrained
+	c.Notes = append(c.Notes, fmt.Sprintf("%d non-test Go files carry build constraints or a generated-code marker", len(constrained)))
+
+	// (2) VTA cross-check
+	n, missing := vtaCrossCheck(c.P)
+	c.check(len(missing) == 0, "call-resolution", "vta-subset-of-cha", "-", fmt.Sprintf("at all %d interface call sites of the module the VTA callees are among the callees the rules consider", n), "a rule could miss a callee", uniq(missing, 5)...)
+
+	// (3) corpus
+	replayCorpus(pd, c, repo, vdir, extra)
+}
+
+func verdictSet(c *Ctx) map[string]string {
+	out := map[string]string{}
+	seen := map[string]int{}
+	for _, o := range c.Obs {
+		k := o.Key
+		seen[k]++
+		if seen[k] > 1 {
+			k = fmt.Sprintf("%s~%d", k, seen[k])
+		}
+		out[k] = string(o.Status)
+	}
+	return out
+}
+
+func constrainedFiles(repo string) []string {
+	var out []string
+	filepath.WalkDir(repo, func(path string, d fs.DirEntry, err error) error {
+		if err != nil {
+			return nil
+		}
+		if d.IsDir() {
+			if d.Name() == ".git" || d.Name() == "vendor" {
+				return filepath.SkipDir
+			}
+			return nil
+		}
+		if !strings.HasSuffix(path, ".go") || strings.HasSuffix(path, "_test.go") {
+			return nil
+		}
+		f, err := os.Open(path)
+		if err != nil {
+			return nil
+		}
+		defer f.Close()
+		sc := bufio.NewScanner(f)
+		for i := 0; i < 30 && sc.Scan(); i++ {
+			l := sc.Text()
+			if strings.HasPrefix(l, "//go:build") || strings.HasPrefix(l, "// +build") || strings.Contains(l, "Code generated") && strings.Contains(l, "DO NOT EDIT") {
+				rel, _ := filepath.Rel(repo, path)
+				out = append(out, rel)
+				break
+			}
+			if strings.HasPrefix(l, "package ") {
+				break
+			}
+		}
+		return nil
+	})
+	sort.Strings(out)
+	return out
+}
+
+func vtaCrossCheck(p *Prog) (int, []string) {
+	g := p.CallGraph("vta")
+	n := 0
+	var missing []string
+	for _, fn := range p.Funcs {
+		node := g.Nodes[fn]
+		if node == nil {
+			continue
+		}
+		bySite := map[ssa.CallInstruction][]*ssa.Function{}
+		for _, e := range node.Out {
+			if e.Site == nil || !e.Site.Common().IsInvoke() {
+				continue
+			}
+			if inModule(e.Callee.Func) {
+				bySite[e.Site] = append(bySite[e.Site], e.Callee.Func)
+			}
+		}
+		for site, callees := range bySite {
+			n++
+			mine := map[*ssa.Function]bool{}
+			for _, t := range p.Callees(site.Common()) {
+				mine[t] = true
+			}
+			for _, cal := range callees {
+				if cal.Synthetic != "" {
+					continue
+				}
+				if !mine[cal] {
+					missing = append(missing, fmt.Sprintf("%s: %s is a VTA callee of the call at %s but not in the rules' resolution", fnKey(fn), fnKey(cal), p.InstrPos(site.(ssa.Instruction))))
+				}
+			}
+		}
+	}
+	return n, missing
+}
+
+func copyTree(src, dst string) error {
+	return filepath.WalkDir(src, func(path string, d fs.DirEntry, err error) error {
+		if err != nil {
+			return err
+		}
+		rel, _ := filepath.Rel(src, path)
+		if d.IsDir() {
+			if d.Name() == ".git" {
+				return filepath.SkipDir
+			}
+			return os.MkdirAll(filepath.Join(dst, rel), 0o755)
+		}
+		if !d.Type().IsRegular() {
+			return nil
+		}
+		in, err := os.Open(path)
+		if err != nil {
+			return err
+		}
+		defer in.Close()
+		out, err := os.Create(filepath.Join(dst, rel))
+		if err != nil {
+			return err
+		}
+		defer out.Close()
+		_, err = io.Copy(out, in)
+		return err
+	})
+}
+
+func applyEntry(e corpusEntry, dir, vdir string) (bool, string) {
+	if e.Patch != "" {
+		cmd := exec.Command("patch", "-p1", "-s", "-i", filepath.Join(vdir, e.Patch))
+		cmd.Dir = dir
+		if out, err := cmd.CombinedOutput(); err != nil {
+			return false, "patch does not apply: " + strings.TrimSpace(string(out))
+		}
+		return true, ""
+	}
+	for _, ed := range e.Edits {
+		p := filepath.Join(dir, ed.File)
+		b, err := os.ReadFile(p)
+		if err != nil {
+			return false, err.Error()
+		}
+		s := string(b)
+		if !strings.Contains(s, ed.Old) {
+			return false, "old text not found in " + ed.File
+		}
+		s = strings.Replace(s, ed.Old, ed.New, 1)
+		if err := os.WriteFile(p, []byte(s), 0o644); err != nil {
+			return false, err.Error()
+		}
+	}
+	return true, ""
+}
+
+func replayCorpus(pd *propDef, c *Ctx, repo, vdir string, extra map[string]interface{}) {
+	var muts, refs []corpusEntry
+	readJSON := func(name string, into *[]corpusEntry) {
+		b, err := os.ReadFile(filepath.Join(vdir, "corpus", name))
+		if err == nil {
+			json.Unmarshal(b, into)
+		}
+	}
+	readJSON("mutants.json", &muts)
+	readJSON("refactors.json", &refs)
+	var todo []corpusEntry
+	kind := map[string]string{}
+	for _, m := range muts {
+		if m.Property == pd.ID {
+			todo = append(todo, m)
+			kind[m.Name] = "mutant"
+		}
+	}
+	for _, r := range refs {
+		todo = append(todo, r)
+		kind[r.Name] = "refactor"
+	}
+	if len(todo) == 0 {
+		extra["corpus"] = "no corpus entries for this property"
+		return
+	}
+	exe, _ := os.Executable()
+	type res struct {
+		name, kind, verdict, detail string
+	}
+	results := make([]res, len(todo))
+	sem := make(chan struct{}, 4)
+	var wg sync.WaitGroup
+	for i, e := range todo {
+		wg.Add(1)
+		go func(i int, e corpusEntry) {
+			defer wg.Done()
+			sem <- struct{}{}
+			defer func() { <-sem }()
+			r := res{name: e.Name, kind: kind[e.Name]}
+			tmp, err := os.MkdirTemp("", "pfcorpus_")
+			if err != nil {
+				r.verdict = "error"
+				results[i] = r
+				return
+			}
+			defer os.RemoveAll(tmp)
+			rdir := filepath.Join(tmp, "repo")
+			sv := filepath.Join(tmp, "verif")
+			os.MkdirAll(sv, 0o755)
+			if b, err := os.ReadFile(filepath.Join(vdir, "known_findings.txt")); err == nil {
+				os.WriteFile(filepath.Join(sv, "known_findings.txt"), b, 0o644)
+			}
+			if err := copyTree(repo, rdir); err != nil {
+				r.verdict = "error"
+				r.detail = err.Error()
+				results[i] = r
+				return
+			}
+			if ok, why := applyEntry(e, rdir, vdir); !ok {
+				r.verdict = "skipped"
+				r.detail = why
+				results[i] = r
+				return
+			}
+			cmd := exec.Command(exe, "-repo", rdir, "-verif", sv, "-prop", pd.ID, "-tier", "quick")
+			out, err := cmd.CombinedOutput()
+			code := 0
+			if ee, ok := err.(*exec.ExitError); ok {
+				code = ee.ExitCode()
+			} else if err != nil {
+				code = -1
+			}
+			switch code {
+			case 0:
+				r.verdict = "silent"
+			case 1:
+				r.verdict = "reported"
+				for _, l := range strings.Split(string(out), "\n") {
+					l = strings.TrimSpace(l)
+					if strings.HasPrefix(l, "[violated]") || strings.HasPrefix(l, "[undecided]") {
+						r.detail = strings.SplitN(l, " at ", 2)[0]
+						break
+					}
+				}
+			default:
+				r.verdict = "unusable"
+				ls := strings.Split(strings.TrimSpace(string(out)), "\n")
+				r.detail = ls[len(ls)-1]
+			}
+			results[i] = r
+		}(i, e)
+	}
+	wg.Wait()
+	nm, km, nr, kr, skipped := 0, 0, 0, 0, 0
+	var rows []string
+	var missed, alarms []string
+	for _, r := range results {
+		rows = append(rows, fmt.Sprintf("%s %s: %s %s", r.kind, r.name, r.verdict, r.detail))
+		if r.verdict == "skipped" || r.verdict == "error" {
+			skipped++
+			continue
+		}
+		if r.kind == "mutant" {
+			nm++
+			if r.verdict == "reported" {
+				km++
+			} else {
+				missed = append(missed, r.name+" ("+r.verdict+" "+r.detail+")")
+			}
+		} else {
+			nr++
+			if r.verdict == "silent" {
+				kr++
+			} else {
+				alarms = append(alarms, r.name+" ("+r.verdict+" "+r.detail+")")
+			}
+		}
+	}
+	sort.Strings(rows)
+	extra["corpus"] = map[string]interface{}{
+		"sensitivity":               fmt.Sprintf("%d/%d stored breaking changes labelled %s are reported by this check", km, nm, pd.ID),
+		"specificity":               fmt.Sprintf("%d/%d stored behaviour-preserving refactorings leave this check silent", kr, nr),
+		"skipped_patch_not_applied": skipped,
+		"not_reported":              missed,
+		"false_alarms":              alarms,
+		"results":                   rows,
+	}
+	fmt.Printf("  corpus: sensitivity %d/%d, specificity %d/%d, skipped %d\n", km, nm, kr, nr, skipped)
+	for _, a := range alarms {
+		fmt.Println("  corpus false alarm:", a)
+	}
+	for _, m := range missed {
+		fmt.Println("  corpus not reported by this property's check:", m)
+	}
+}
